@@ -587,12 +587,42 @@ Definition y_spur : bool :=
   if y_consumed then Nat.ltb (s_consumed s) (length (s_rx s))
   else if y_looks then false else (l_spur g || y_grew).
 
+Definition y_e_backoff : list rule :=
+    if y_looks then
+      match decode (s_rx s) with
+      | Ok (Accept t n) =>
+          let gap_reply (a : Z) := match t with
+                                   | TData h _ => match h_fc h with
+                                                  | FcResponse _ _ => (h_sa h =? a) && (h_da h =? y_ts)
+                                                  | _ => false
+                                                  end
+                                   | _ => false
+                                   end in
+          let unexpected :=
+            if state_kind_eqb y_k0 KAwaitDataResponse then
+              match m_out m with
+              | Some (_, addr) => negb (match t with TShortConf => true | TToken _ _ => false | _ => gap_reply addr end)
+              | None => false
+              end
+            else if y_waiting_c12 then
+              match g_wait g with Some a => negb (gap_reply a) | None => false end
+            else false in
+          if unexpected
+          then check (state_kind_eqb y_k1 KActiveIdle &&
+                      match s_tx s with None => true | Some _ => false end &&
+                      match s_calls s with [] => true | _ => false end &&
+                      Nat.eqb (s_consumed s) n) R06_no_backoff
+          else []
+      | _ => []
+      end
+    else [].
+
 Definition y_g' : mon2 :=
   mkMon2 y_wait y_expect y_visit y_last2 y_hend y_scan y_turn2 y_decl2 y_ref2 y_txend y_spur.
 
 Lemma mon_poll2_eq :
   mon_poll2 p napps m g s =
-  (y_g', y_e_found ++ y_e_tok ++ y_e_sweep ++ y_e13 ++ y_e_scan ++ y_e_rr ++ y_e_end ++ y_e_live).
+  (y_g', y_e_found ++ y_e_tok ++ y_e_sweep ++ y_e13 ++ y_e_scan ++ y_e_rr ++ y_e_end ++ y_e_live ++ y_e_backoff).
 Proof.
   unfold mon_poll2.
   cbv zeta.
@@ -603,7 +633,7 @@ Proof.
   cbv beta zeta delta [y_ts y_now y_pre y_post y_k0 y_k1 y_txt y_gap_poll y_token_tx y_first y_awaiting y_ready_reply
     y_e_found y_e_tok y_expect y_wait y_visit_tx y_claim_tx y_restart y_last1 y_last2 y_visit y_e_sweep y_e13 y_self_pass
     y_new_visit y_hend y_in_list y_scan1 y_scan_ends y_e_scan y_scan y_in_vis y_passed y_grew y_tx_end y_ongoing y_looks
-    y_spur_now y_consumed y_quiet y_waiting_c12 y_acted y_expired y_e_live y_happened y_ref1 y_ref2 y_txend y_spur].
+    y_spur_now y_consumed y_quiet y_waiting_c12 y_acted y_expired y_e_live y_happened y_ref1 y_ref2 y_txend y_spur y_e_backoff].
   reflexivity.
 Qed.
 
@@ -680,6 +710,8 @@ Proof. unfold y_e_end. solve_onlyp. Qed.
 Definition p_live (x : pid) : Prop := x = PC12 \/ x = PC11 \/ x = PC15.
 Lemma y_e_live_only p m g s : onlyp p_live (y_e_live p m g s).
 Proof. unfold y_e_live, p_live. solve_onlyp. Qed.
+Lemma y_e_backoff_only p m g s : onlyp (eq PC06) (y_e_backoff p m g s).
+Proof. unfold y_e_backoff. cbv zeta. solve_onlyp. Qed.
 
 (* ------------------------------------------------------------------------------------------ *)
 (* The generic induction over model transcripts.                                               *)
